@@ -23,7 +23,7 @@ P = {
  "C07": dict(cat="exploration", tech="property-based testing over constructed valid FEN strings: field-by-field differential against an independent FEN reader and lock-step play against the played twin",
    text="FENs rendered by the oracle from synthesised and played positions (all consistent flag subsets, e.p. both colours, clocks 0..150, move numbers 1..6000, 6- and 4-field); loaded boards are compared field by field with the oracle's reader, then played in lock step with the oracle and the same position reached by play.",
    note="Only valid FEN strings are generated; oracle FEN reader/writer round-trip validated at start.", ref="5 C07"),
- "C08": dict(cat="exploration", tech="model-based testing of UCI sessions: in-process session object and real process against a session model plus the rules oracle",
+ "C08": dict(cat="exploration", tech="model-based testing of UCI sessions: in-process session object and real process against a session model plus the rules oracle; text-level mutation fuzzing of the sessions (blind in quick, coverage-guided libFuzzer in thorough) against a strict oracle-side grammar reader",
    text="Generated sessions of position/ucinewgame commands (6- and 4-field FEN; previous command re-sent, extended or shortened; games of up to 3000 plies) with legal move lists and single-move corruptions; after every command the session board must equal the model (last accepted position) and corrupted commands must be refused as a whole; the same sessions over the real binary are probed with a short search whose bestmove must be legal in the model position and in no other candidate.",
    note="Rules oracle + session model; in-process layer uses hook H4 which runs the same parser/executor as uci_loop.", ref="5 C08"),
  "C09": dict(cat="exploration", tech="property-based testing of the real engine process over generated (position, limit-combination) sessions with a legality and deadline oracle",
@@ -44,7 +44,7 @@ P = {
  "C14": dict(cat="exploration", tech="property-based testing of the real engine's info output with a UCI grammar parser and PV replay on the rules oracle",
    text="go depth N (N=1..5; 40 and 255 on a forced mate) and node/time-limited searches over generated positions, mate-net roots with either side to move, game-flow sessions (6-10 searches along a game in one process) and searches under an isready flood; every stdout line must be valid, depths must be 1..k without gaps or repeats (k == N for depth-only), every PV must replay legally.",
    note="Rules oracle for PV legality; mate distance not asserted.", ref="5 C14"),
- "C15": dict(cat="exploration", tech="grammar-based fuzzing of the UCI input with a liveness oracle (readyok, clean quit, exit on end-of-input)",
+ "C15": dict(cat="exploration", tech="grammar-based fuzzing of the UCI input with a liveness oracle (readyok, clean quit, exit on end-of-input); text-level mutation fuzzing in-process (blind in quick, coverage-guided libFuzzer in thorough) with a no-panic oracle",
    text="Sessions of 1..25 lines from a grammar over the UCI vocabulary with dropped/duplicated/reordered/junk arguments, blank, over-long, non-ASCII and non-UTF-8 lines; the engine must stay alive and responsive, quit cleanly and terminate on end-of-input at any point.",
    note="FEN arguments are always valid (the statement's assumption); 3 s stands in for 'promptly'.", ref="5 C15"),
  "C16": dict(cat="exploration", tech="repetition testing: equality of (best move, score, nodes) across repeated in-process runs, separate processes and CPU load, and of the bench node total",
@@ -72,6 +72,7 @@ m = {
 }
 if os.path.isdir('/verif/harness/fuzz'):
     m["engines"].append({"name": "fuzz_play", "path": "harness/fuzz", "serves_properties": ["C01","C02","C03","C04","C07"], "kind_free_text": "cargo-fuzz/libFuzzer target whose bytes are decoded into the same generators; oracles run inside the target; used by the thorough tiers"})
+    m["engines"].append({"name": "fuzz_uci", "path": "harness/fuzz", "serves_properties": ["C08","C15"], "kind_free_text": "cargo-fuzz/libFuzzer target whose bytes are the text of a UCI session; every line is classified by a strict oracle-side reading of the grammar (harness/src/vf/fuzzuci.rs) and the C08/C15 oracles run inside; used by the thorough tiers, the same oracle with blind mutations by the quick tiers"})
 for p in props:
     i = p["id"]
     if i in built:
